@@ -357,12 +357,13 @@ class EditStream(HTMLHandlerBase):
             logging.debug(cfe)
             context['error'] = "csrf check failed"
         if context['error'] is not None:
-            context['csrf_tokens'] = CsrfTokenCollection(
-                files=self.generate_csrf_token('files', context['csrf_key']),
-                kids=self.generate_csrf_token('keys', context['csrf_key']),
-                streams=context['csrf_token'],
-                upload=None)
-            return flask.render_template('media/stream.html', **context)
+            # nothing has been committed: discard the changes made above
+            models.db.session.rollback()
+            if is_ajax():
+                return jsonify({'error': context['error']}, 401)
+            flask.flash(f'CSRF error: {context["error"]}', 'error')
+            return flask.redirect(
+                flask.url_for('view-stream', spk=current_stream.pk))
         models.db.session.commit()
         if is_ajax():
             return jsonify(current_stream.toJSON())
